@@ -5,7 +5,7 @@ out=${1:-/tmp/mutres}
 mkdir -p $out
 cd /verif
 for m in mutants/*.diff; do n=$(basename $m .diff); p=${n%%-*}
-  VERIF_WORKERS=${VERIF_WORKERS:-6} LINES_MAX=3 tools/mutant.sh /verif/$m $p > $out/$n.txt 2>&1
+  VERIF_WORKERS=${VERIF_WORKERS:-6} LINES_MAX=14 tools/mutant.sh /verif/$m $p > $out/$n.txt 2>&1
 done
 python3 tools/mutants_results.py $out
 echo MUTDONE
